@@ -331,14 +331,8 @@ Proof.
   assert (HP'o : forall m, m <> q -> P' m = st_p s m) by (intros m Hm; unfold P'; apply fupd_other; exact Hm).
   refine (conj _ (conj eq_refl (conj HP'q (conj HP'o _)))).
   - constructor; cbn [st_sh st_p set_P]; [exact Hshape | |].
-    + change (NoDup (all_ids (st_sh s) P')). apply nodup_cnt. intros x.
-      pose proof (cnt_all_upd (st_sh s) (st_p s) q (st_p s q ++ [e0 id]) x Hnd (find_some_in_names _ _ _ Hf)) as Hc.
-      fold P' in Hc. unfold ids in Hc at 3. rewrite map_app, cnt_app in Hc. cbn [map e0 pi_id] in Hc.
-      fold (ids (st_p s q)) in Hc.
-      pose proof (proj1 (nodup_cnt _) Hids x) as Hle. rewrite all_pod_ids_eq in Hle.
-      unfold cnt at 5 in Hc. cbn [count_occ] in Hc.
-      destruct (Z.eq_dec id x) as [E|E]; [|lia].
-      subst x. assert (cnt id (all_ids (st_sh s) (st_p s)) = 0%nat) by (apply cnt_zero; exact Hfresh). lia.
+    + change (NoDup (all_ids (st_sh s) P')). unfold P'.
+      apply nodup_all_upd_add; [exact Hnd | eapply find_some_in_names; eauto | exact Hids | exact Hfresh].
     + intros q0 Hq0. apply qok_same_RU; [apply Hq; exact Hq0 | | | | |];
         (destruct (Z.eq_dec (q_name q0) q) as [E|E]; [rewrite E, HP'q | rewrite (HP'o _ E); try reflexivity]).
       * unfold self_req. rewrite vsum_app2. cbn. apply vadd_0_r.
@@ -369,14 +363,11 @@ Proof.
   assert (HP'o : forall m, m <> q -> P' m = st_p s m) by (intros m Hm; unfold P'; apply fupd_other; exact Hm).
   refine (conj _ (conj eq_refl (conj HP'q HP'o))).
   constructor; cbn [st_sh st_p set_P]; [exact Hshape | |].
-  - change (NoDup (all_ids (st_sh s) P')). apply nodup_cnt. intros x.
-    pose proof (cnt_all_upd (st_sh s) (st_p s) q (ps1 ++ ps2) x Hnd (find_some_in_names _ _ _ Hf)) as Hc.
-    fold P' in Hc. rewrite HPq in Hc. unfold ids in Hc. rewrite !map_app, !cnt_app in Hc. cbn [map] in Hc.
-    pose proof (proj1 (nodup_cnt _) Hids x) as Hle. rewrite all_pod_ids_eq in Hle.
-    unfold cnt at 4 in Hc. cbn [count_occ] in Hc. fold (cnt x (map pi_id ps2)) in Hc.
-    destruct (Z.eq_dec (pi_id pi) x); unfold ids; lia.
+  - change (NoDup (all_ids (st_sh s) P')). unfold P'.
+    apply nodup_all_upd_sub; [exact Hnd | eapply find_some_in_names; eauto | exact Hids |].
+    intros x. rewrite HPq. apply cnt_ids_split_le.
   - intros q0 Hq0. apply qok_same_RU; [apply Hq; exact Hq0 | | | | |];
-      (destruct (Z.eq_dec (q_name q0) q) as [E|E]; [rewrite E, HP'q, HPq | rewrite (HP'o _ E); try reflexivity]).
+      (destruct (Z.eq_dec (q_name q0) q) as [E|E]; [rewrite E, HP'q, ?HPq | rewrite (HP'o _ E); try reflexivity]).
     + unfold self_req. rewrite vsum_app2, vsum_split', Z1. generalize (vsum (map pi_areq ps1)) (vsum (map pi_areq ps2)). intros. vlia.
     + unfold self_np. rewrite vsum_app2, vsum_split', Z2. generalize (vsum (map pi_anp ps1)) (vsum (map pi_anp ps2)). intros. vlia.
     + unfold self_used. rewrite vsum_app2, vsum_split', Z3. generalize (vsum (map pi_aused ps1)) (vsum (map pi_aused ps2)). intros. vlia.
@@ -405,7 +396,7 @@ Proof.
     intros q0 Hq0. destruct (Z.eq_dec (q_name q0) q) as [E|E]; [|rewrite (HP'o _ E); reflexivity].
     rewrite E, HP'q, HPq. apply ids_replace. reflexivity.
   - intros q0 Hq0. apply qok_same_RU; [apply Hq; exact Hq0 | | | | |];
-      (destruct (Z.eq_dec (q_name q0) q) as [E|E]; [rewrite E, HP'q, HPq | rewrite (HP'o _ E); try reflexivity]).
+      (destruct (Z.eq_dec (q_name q0) q) as [E|E]; [rewrite E, HP'q, ?HPq | rewrite (HP'o _ E); try reflexivity]).
     + unfold self_req. rewrite !vsum_split'. reflexivity.
     + unfold self_np. rewrite !vsum_split'. reflexivity.
     + unfold self_used. rewrite !vsum_split'. reflexivity.
